@@ -327,6 +327,22 @@ CHECKS = {
                 'distinct = distinct (object, name, class, result) sequences',
         'assumptions': ASSUME_COMMON + ['the valid type / range per option NAME is our reading of options.go; where it is silent the contract says either'],
     },
+    'C20': {
+        'level': 'model_checking',
+        'jobs': [
+            T('MC_Macat', 'Macat_quick.cfg', workers=8, tiers=('quick',)),
+            T('MC_Macat', 'Macat_full.cfg', workers=8, tiers=('thorough',)),
+            C('macatargs', 'TestMacatArgs', 'TraceMacat', trivial_len=0, n={'quick': 60, 'thorough': 600}),
+            C('macatfmt', 'TestMacatFormat', 'TraceMacat', trivial_len=0, n={'quick': 1, 'thorough': 6}),
+            C('macatdur', 'TestMacatDur', 'TraceMacat', trivial_len=0, n={'quick': 20, 'thorough': 300}),
+        ],
+        'rule': 'one trace per invocation of the built macat binary (or one for the in-process Duration sweep); distinct = distinct '
+                '(token sequence, observation) lines',
+        'assumptions': ['TLC 1.8.0 and the TLA+ standard/community modules are correct',
+                        'the harness peer sockets (mangos itself, checked by the other properties) deliver what macat sent and what the harness fed',
+                        'elapsed times are lower bounds taken on the real clock (spawn to exit, spawn to first message)',
+                        'third-party option parsing (github.com/gdamore/optopia) is outside the repository'],
+    },
     'C02': {
         'level': 'model_checking',
         'jobs': [
